@@ -24,6 +24,30 @@ class CFG:
         self.body = body
         self.n = len(body.blocks)
         self.succ = [term_succs(b['term']) for b in body.blocks]
+        # constant switch folding (exact): `L = const v; switchInt(L)` in one block (cfg!(debug_assertions) etc.)
+        for bi, blk in enumerate(body.blocks):
+            t = blk['term']
+            if t['k'] != 'switch':
+                continue
+            val = None
+            if t['on']['k'] == 'const':
+                val = t['on'].get('v')
+            elif not t['on']['p']['proj']:
+                L = t['on']['p']['l']
+                for st in blk['stmts']:
+                    if st['dst']['l'] == L:
+                        rv = st['rv']
+                        if not st['dst']['proj'] and rv['k'] == 'use' and rv['ops'][0]['k'] == 'const' and 'v' in rv['ops'][0]:
+                            val = rv['ops'][0]['v']
+                        else:
+                            val = None
+            if val is None:
+                continue
+            tgt = t['otherwise']
+            for v, b2 in t['targets']:
+                if v == val:
+                    tgt = b2
+            self.succ[bi] = [(tgt, None)]
         # jump threading (exact): `L = const v; goto T` where T is an empty block `switchInt(L)` goes
         # straight to T's target for v (the shape of `matches!(..)`, `a && b`, `if let .. else`).
         self.threaded = {}     # (T, label) -> [B...]
